@@ -5,6 +5,7 @@
   is observable).
 -/
 import Honeycomb.Model.Ops
+import Honeycomb.Gen.Anchors
 
 namespace HC
 
@@ -92,18 +93,80 @@ def badOrientVal (l b1r b1l r : Val) : Bool :=
       decide (dot3 (blx - lx) (bly - ly) (blz - lz) (brx - rx) (bry - ry) (brz - rz) ≥ 0)
   | _, _, _, _ => false
 
+/-! ## anchors (`honeycomb-kernels/src/utils/anchors.rs`, generated table `Gen/Anchors.lean`)
+
+An anchor value is stored as `Val.tm (.leaf code)` with `code = 4 * id + anchor_dim`. -/
+
+/-- lift a generated anchor law (`ofCode`/`code` + the four `AttributeUpdate` functions) to `Val` -/
+def anchorLawOf {A : Type} (ofCode : Nat → Option A) (code : A → Nat)
+    (merge : A → A → Option A) (mergeInc : A → Option A) (mergeNone : Option A)
+    (split : A → Option (A × A)) (splitNone : Option (A × A)) : Law Val where
+  merge a b := match a, b with
+    | .tm (.leaf x), .tm (.leaf y) =>
+        match ofCode x, ofCode y with
+        | some p, some q =>
+            match merge p q with
+            | some r => .ok (.tm (.leaf (code r)))
+            | none => .error errFailedMerge
+        | _, _ => .error errFailedMerge
+    | _, _ => .error errFailedMerge
+  mergeInc a := match a with
+    | .tm (.leaf x) =>
+        match (ofCode x).bind mergeInc with
+        | some r => .ok (.tm (.leaf (code r)))
+        | none => .error errInsufficient
+    | _ => .error errInsufficient
+  mergeNone := match mergeNone with
+    | some r => .ok (.tm (.leaf (code r)))
+    | none => .error errInsufficient
+  split a := match a with
+    | .tm (.leaf x) =>
+        match (ofCode x).bind split with
+        | some (l, r) => .ok (.tm (.leaf (code l)), .tm (.leaf (code r)))
+        | none => .error errFailedSplit
+    | _ => .error errFailedSplit
+  splitNone := match splitNone with
+    | some (l, r) => .ok (.tm (.leaf (code l)), .tm (.leaf (code r)))
+    | none => .error errInsufficient
+  ticks := false
+
+open Gen.Anchors in
+def anchorLawV : Law Val :=
+  anchorLawOf VertexAnchor.ofCode VertexAnchor.code VertexAnchor.merge VertexAnchor.mergeIncomplete
+    VertexAnchor.mergeFromNone VertexAnchor.split VertexAnchor.splitFromNone
+
+open Gen.Anchors in
+def anchorLawE : Law Val :=
+  anchorLawOf EdgeAnchor.ofCode EdgeAnchor.code EdgeAnchor.merge EdgeAnchor.mergeIncomplete
+    EdgeAnchor.mergeFromNone EdgeAnchor.split EdgeAnchor.splitFromNone
+
+open Gen.Anchors in
+def anchorLawF : Law Val :=
+  anchorLawOf FaceAnchor.ofCode FaceAnchor.code FaceAnchor.merge FaceAnchor.mergeIncomplete
+    FaceAnchor.mergeFromNone FaceAnchor.split FaceAnchor.splitFromNone
+
+/-- number of storages of the session maps (0 … 8) -/
+def stdStorages : Nat := 9
+
 /-- the harness' fixed attribute set.
     storage 0: vertices; 1: `VTerm` (vertex, full law); 2: `ETerm` (edge, default law);
-    3: `FTerm` (face, full law); 4: `CTerm` (volume, full law); 5: `VDef` (vertex, default law).
+    3: `FTerm` (face, full law); 4: `CTerm` (volume, full law); 5: `VDef` (vertex, default law);
+    6: `VertexAnchor`; 7: `EdgeAnchor`; 8: `FaceAnchor` (honeycomb-kernels, generated law).
     `mask` bit `s-1` = storage `s` registered. -/
 def stdCfg (nb : Nat) (mask : Nat) : Cfg Val where
   nb := nb
-  kinds := [0] ++ ((List.range 5).map fun i =>
-    if mask.testBit i then [0, 1, 2, 3, 0].getD i 9 else 9)
+  kinds := [0] ++ ((List.range 8).map fun i =>
+    if mask.testBit i then
+      [0, 1, 2, 3, 0, Gen.Anchors.VertexAnchor.kind, Gen.Anchors.EdgeAnchor.kind,
+        Gen.Anchors.FaceAnchor.kind].getD i 9
+    else 9)
   law := fun s => match s with
     | 0 => avgLaw
     | 2 => termLawDefault
     | 5 => termLawDefault
+    | 6 => anchorLawV
+    | 7 => anchorLawE
+    | 8 => anchorLawF
     | _ => termLawFull
   badOrient := badOrientVal
 
